@@ -672,6 +672,21 @@ theorem ring_op_never_panics (n : Nat) (hn : 0 < n) (hs : 2 * n ≤ USIZE) (r : 
     (∀ op, op.Wf → ∃ r2 o, r.step op = .ok (r2, o)) :=
   Ring.ring_never_panics hn hs h
 
+/-- Non-vacuity of the hypotheses of `ringbuf_refines_queue` / `ring_never_panics` /
+`ring_op_never_panics`: capacity 4, an overflowing push and an over-long pop are well-formed
+operations, and the ring after them (indices wrapped) is reachable. -/
+example : (0 < 4 ∧ 2 * 4 ≤ USIZE) ∧ (∀ op ∈ [RingOp.push [1, 2, 3, 4, 5, 6], .pop 9, .pushByte 7], op.Wf) := by
+  refine ⟨by unfold USIZE; omega, ?_⟩
+  intro op h
+  simp only [List.mem_cons, List.not_mem_nil, or_false] at h
+  rcases h with rfl | rfl | rfl <;> simp [RingOp.Wf, USIZE]
+
+example : Ring.Reach 4 { n := 4, buf := [5, 6, 3, 4], start := 1, end_ := 2, nonEmpty := true } :=
+  have h1 : Ring.Reach 4 { n := 4, buf := [5, 6, 3, 4], start := 2, end_ := 2, nonEmpty := true } :=
+    Ring.Reach.step (o := ⟨[], 4, 0, true, false⟩) (.push [1, 2, 3, 4, 5, 6]) Ring.Reach.new
+      (by simp [RingOp.Wf, USIZE]) rfl
+  Ring.Reach.step (o := ⟨[3, 4, 5], 1, 3, false, false⟩) (.pop 3) h1 (by simp [RingOp.Wf, USIZE]) rfl
+
 /-- the capacity BTP uses (`RingBuf<MAX_MESSAGE_SIZE>`, a constant: session.rs:184/191) satisfies
 the hypotheses of the ring theorems -/
 theorem session_ring_capacity : 0 < maxMessageSize ∧ 2 * maxMessageSize ≤ USIZE := by
@@ -809,6 +824,10 @@ theorem recv_fetch_is_bufop {r r2 : RecvWindow} {cap : Nat} {out : List Nat}
 `pop_byte`), then an empty message list again. -/
 example : qBufRun maxMessageSize [] [.accept (some [5, 0]) [1, 2, 3], .accept none [4, 5], .fetch 3, .reset] =
     some [.accepted, .accepted, .fetched [1, 2, 3], .cleared] := by decide
+example : ∀ op ∈ [BufOp.accept (some [5, 0]) [1, 2, 3], .accept none [4, 5], .fetch 3, .reset], op.Wf := by
+  intro op h
+  simp only [List.mem_cons, List.not_mem_nil, or_false] at h
+  rcases h with rfl | rfl | rfl | rfl <;> simp [BufOp.Wf, USIZE]
 example : Ring.bufRun (Ring.new 8) [.accept (some [5, 0]) [1, 2, 3], .accept none [4, 5], .accept none [6, 7],
       .fetch 3, .accept (some [2, 0]) [8, 9], .fetch 9] =
     .ok (some [.accepted, .accepted, .refused, .fetched [1, 2, 3], .accepted, .fetched [8, 9]]) := rfl
